@@ -87,7 +87,7 @@ Definition view_valid (k : vkind) (p : bytes) : bool :=
   | KEther => Nat.leb 14 n
   | KIP4 => let ihl := N.to_nat (N.land (bt p 0) 15 * 4) in let tl := N.to_nat (w16 p 2) in
             Nat.leb 20 n && Nat.leb 20 ihl && Nat.leb ihl n && Nat.leb ihl tl && Nat.leb tl n
-  | KIP6 => Nat.leb 40 n && Nat.eqb (N.to_nat (u16 (w16 p 4 + 40))) n    (* uint16 addition *)
+  | KIP6 => Nat.leb 40 n && Nat.leb (N.to_nat (w16 p 4) + 40) n    (* trailing bytes allowed (/repo 28b2fc9) *)
   | KUDP => Nat.leb 8 n
   | KARP => Nat.leb 28 n && (w16 p 0 =? 1) && (w16 p 2 =? 2048) && (bt p 4 =? 6) && (bt p 5 =? 4)
   | KICMP | KICMPEcho => Nat.leb 8 n
